@@ -81,10 +81,22 @@ def decide(ex, rep, clause, fn, outcomes, ok_value, err_allowed, vars_, value_of
         r, m = solve(ex, rep, cons)
         if r == unsat:
             continue
+        if r == sat and ex.PROD_TERMS:
+            # the model speaks about generalised products: restore the exact products before believing it
+            r2, m2 = solve(ex, rep, cons + [p == a * b for a, b, p in ex.PROD_TERMS], timeout_ms=45000)
+            if r2 == unsat:
+                rep.inconclusive = 'product generalisation too coarse for %s (model not realisable with exact products)' % clause
+                bad += 1
+                continue
+            if r2 != sat:
+                rep.inconclusive = 'counterexample of %s over the generalised product could not be realised with exact products (solver: unknown)' % clause
+                bad += 1
+                continue
+            m = m2
         bad += 1
         if r == sat:
             rep.violations.append({'clause': clause, 'function': fn, 'outcome': kind if is_err else 'value',
-                                   'model_generalised_product': model_vals(m, vars_), 'realised': False})
+                                   'model_generalised_product': model_vals(m, vars_), 'exact_products': True, 'realised': False})
         else:
             rep.inconclusive = 'solver answered unknown for %s' % clause
     rep.obligations += 1
